@@ -1127,6 +1127,12 @@ func (this *rolzCodec2) Forward(src, dst []byte) (uint, uint, error) {
 	dst[4] = flags
 	sizeChunk := min(len(src), _ROLZ_CHUNK_SIZE)
 
+	// The encoder does not check the output index for each byte: stop (skip the
+	// transform) before an incompressible block can overflow the output buffer.
+	// A symbol is at most 9+8 bits and each bit emits at most 8 bytes.
+	dstEnd := len(dst) - 256
+	errFull := errors.New("ROLZX codec forward transform skip: destination buffer too small")
+
 	// Main loop
 	for startChunk < srcEnd {
 		clear(this.matches)
@@ -1150,12 +1156,20 @@ func (this *rolzCodec2) Forward(src, dst []byte) (uint, uint, error) {
 		}
 
 		for j := 0; j < mm; j++ {
+			if dstIdx > dstEnd {
+				return uint(startChunk + srcIdx), uint(dstIdx), errFull
+			}
+
 			re.encode9Bits((_ROLZ_LITERAL_FLAG << 8) | int(buf[srcIdx]))
 			srcIdx++
 		}
 
 		// Next chunk
 		for srcIdx < sizeChunk {
+			if dstIdx > dstEnd {
+				return uint(startChunk + srcIdx), uint(dstIdx), errFull
+			}
+
 			re.setContext(_ROLZ_LITERAL_CTX, buf[srcIdx-1])
 			var key uint32
 
@@ -1188,6 +1202,10 @@ func (this *rolzCodec2) Forward(src, dst []byte) (uint, uint, error) {
 	srcIdx += (startChunk - sizeChunk)
 
 	for i := 0; i < 4; i++ {
+		if dstIdx > dstEnd {
+			return uint(srcIdx), uint(dstIdx), errFull
+		}
+
 		re.setContext(_ROLZ_LITERAL_CTX, src[srcIdx-1])
 		re.encode9Bits((_ROLZ_LITERAL_FLAG << 8) | int(src[srcIdx]))
 		srcIdx++
